@@ -197,7 +197,7 @@ def render(route, value):
 
 def plan(tier, seed):
     n_shards = 16 if tier == "quick" else 64
-    return [{"seed": seed * 3119 + i * 472882027 + 43, "n": 1300 if tier == "quick" else 8000}
+    return [{"seed": seed * 3119 + i * 472882027 + 43, "n": 4000 if tier == "quick" else 20000}
             for i in range(n_shards)]
 
 
